@@ -141,8 +141,21 @@ def run_case(c):
     want_cp = np.array([0.0] + [2 * c["a2"] * T[i] * EvTokJmol * 1000 for i in range(1, len(cp))])
     if np.abs(cp - want_cp).max() > 1e-5 * max(np.abs(want_cp).max(), 1e-12):
         bad("qha_cp_numerical", "numerical C_P differs from -T d2G/dT2 of the generating G(T) by %.3e (max %.3e)" % (np.abs(cp - want_cp).max(), np.abs(want_cp).max()), **feat)
-    # BulkModulus without temperatures (static EOS fit), with pressure
-    qb = PhonopyQHA(volumes=vols, electronic_energies=Fin[0].copy(), eos=c["eos"], pressure=P)
+    # the same call again with the very same array objects (a loop over pressures or EOS reuses its inputs): the same parameters must be recovered
+    try:
+        qha2 = PhonopyQHA(volumes=vols, electronic_energies=el, temperatures=T, free_energy=ph, cv=cv, entropy=ent, pressure=P, eos=c["eos"], t_max=t_max)
+        vt2, gt2, bt2 = np.array(qha2.volume_temperature), np.array(qha2.gibbs_temperature), np.array(qha2.bulk_modulus_temperature)
+        obs["n_repeat_same_arrays"] = 1
+        k2 = min(len(vt2), len(T))
+        if np.abs(vt2[:k2] - V0T[:k2]).max() / V0 > 1e-7 or np.abs(gt2[:k2] - E0T[:k2]).max() / max(abs(E0), B0 * V0 * 1e-2) > 1e-7 or np.abs(bt2[:k2] - B0T[:k2] * EVAngstromToGPa).max() / c["B0_GPa"] > 1e-6:
+            bad("qha_repeat_call", "second PhonopyQHA call with the same input arrays does not recover the generating parameters: dV/V0 %.3e, dB/B0 %.3e" % (
+                np.abs(vt2[:k2] - V0T[:k2]).max() / V0, np.abs(bt2[:k2] - B0T[:k2] * EVAngstromToGPa).max() / c["B0_GPa"]), repeat=True, **feat)
+    except Exception as e:
+        bad("qha_exception", "second PhonopyQHA call with the same input arrays raised %r" % (e,), repeat=True, **feat)
+    # BulkModulus without temperatures (static EOS fit), with pressure; twice with the same array
+    el_static = Fin[0].copy()
+    PhonopyQHA(volumes=vols, electronic_energies=el_static, eos=c["eos"], pressure=P)
+    qb = PhonopyQHA(volumes=vols, electronic_energies=el_static, eos=c["eos"], pressure=P)
     obs["n_bulk_modulus_class"] = 1
     prm = qb.get_bulk_modulus_parameters()
     if abs(prm[3] - V0T[0]) > 1e-7 * V0 or abs(prm[1] - B0T[0]) > 1e-6 * B0 or abs(prm[2] - Bp) > 1e-5 * Bp or abs(prm[0] - E0T[0]) > 1e-7 * max(abs(E0), B0 * V0 * 1e-2):
@@ -160,7 +173,7 @@ def run_case(c):
 
 def summarize(results, obs, tier):
     inc = []
-    for k in ("n_eos", "n_qha", "n_expansion", "n_bulk_modulus_class", "el2d", "el1d", "pressure_30.0", "pressure_-5.0", "pressure_None"):
+    for k in ("n_eos", "n_qha", "n_repeat_same_arrays", "n_expansion", "n_bulk_modulus_class", "el2d", "el1d", "pressure_30.0", "pressure_-5.0", "pressure_None"):
         if obs.get(k, 0) == 0:
             inc.append("%s never exercised" % k)
     return {}, inc
